@@ -364,6 +364,47 @@ func (g *genCtx) applyScripts(p *PlanSpec) {
 	}
 }
 
+// widen makes one dimension of the plan large (11-13 entries): many SQL and
+// ordering mistakes only show beyond single-digit positions.
+func (g *genCtx) widen(p *PlanSpec) {
+	r := g.r
+	n := 11 + r.Intn(3)
+	quick := func() ActionSpec {
+		a := g.action(false)
+		a.Default = Outcome{Kind: OK, LatMs: 137}
+		a.Retries = 0
+		return a
+	}
+	b := &p.Blocks[r.Intn(len(p.Blocks))]
+	switch r.Intn(4) {
+	case 0: // actions of a sequence
+		sq := &b.Seqs[r.Intn(len(b.Seqs))]
+		for len(sq.Actions) < n {
+			sq.Actions = append(sq.Actions, quick())
+		}
+	case 1: // actions of a check group
+		c := b.Pre
+		if r.Bool(0.5) || c == nil {
+			if p.Post == nil {
+				p.Post = &ChecksSpec{}
+			}
+			c = p.Post
+		}
+		for len(c.Actions) < n {
+			a := quick()
+			c.Actions = append(c.Actions, a)
+		}
+	case 2: // sequences of a block
+		for len(b.Seqs) < n {
+			b.Seqs = append(b.Seqs, SeqSpec{Actions: []ActionSpec{quick()}})
+		}
+	default: // blocks of a plan
+		for len(p.Blocks) < n {
+			p.Blocks = append(p.Blocks, BlockSpec{Seqs: []SeqSpec{{Actions: []ActionSpec{quick()}}}, Concurrency: 1})
+		}
+	}
+}
+
 // clampLatencies makes sure that every scripted outcome other than an overrun
 // returns before the action's timeout, so that the outcome the script names is
 // the outcome the engine sees.
@@ -519,6 +560,9 @@ func GenExec(seed uint64, profile string, runIdx int) *RunSpec {
 			p.Bypass = g.checks(false)
 		} else if g.class == clsBypassOK && p.Blocks[0].Bypass == nil {
 			p.Blocks[r.Intn(len(p.Blocks))].Bypass = g.checks(false)
+		}
+		if r.Bool(0.04) {
+			g.widen(&p)
 		}
 		g.applyScripts(&p)
 		spec.Plans = append(spec.Plans, p)
